@@ -15,6 +15,7 @@ Tie:     (a) the tables; (b) correspondence: the Gallina model is run on binary6
          vm_compute) on the implementation's own output.
 Oracle:  harness/c17_oracle.py — exact rational arithmetic on the returned floats.
 """
+import hashlib
 import json
 import math
 import multiprocessing as mp
@@ -23,7 +24,6 @@ import re
 from .. import common as cm
 from .. import c17_oracle as orc
 from .. import tables_c17
-from ..tables import TablesError
 
 PID = "C17"
 RUNTAG = f"p{__import__('os').getpid()}_"     # several runs of this check may share work/C17 (labs, the lead's registration run)
@@ -443,10 +443,21 @@ def run(tier, seed, replay=None):
     tables_ok = True
     try:
         tables_c17.generate(cm.REPO, TETTABLES)
-    except (TablesError, SyntaxError, OSError) as e:
+    except Exception as e:  # noqa: BLE001  (TablesError, SyntaxError, OSError, or a bug of the reader: all fail closed)
         tables_ok = False
-        R.proof_broken.append(f"Gen/TetTables.v cannot be regenerated from the source (theorems about the cube/box/"
-                              f"icosahedron/cylinder tables no longer tied to the code): {str(e)[:300]}")
+        R.proof_broken.append(f"Gen/TetTables.v cannot be regenerated from the source: the reader refuses "
+                              f"{tables_c17.SRC} (ALL theorems of Props/C17.v are about a model of different code and are "
+                              f"not counted): {type(e).__name__}: {str(e)[:700]}")
+        # The generated file is left as the last successful read wrote it (= the tables of the code the model was
+        # audited against).  It is used below ONLY to build the executable model for the search for a failing input:
+        # `discharged` is forced to 0 and the model runs are reported as runs of a STALE model.
+        R.cov["stale_tables"] = dict(
+            file="coq/theories/Gen/TetTables.v",
+            sha256=hashlib.sha256(TETTABLES.read_bytes()).hexdigest() if TETTABLES.exists() else None,
+            note="not regenerated in this run; the Coq build and the model evaluations below use the tables of the last "
+                 "successful read. No theorem is counted as discharged; agreement of this stale model with the "
+                 "implementation is not evidence for the property, disagreement is a lead for the search")
+        R.notes.append("STALE Gen/TetTables.v: see coverage.stale_tables")
     import time as _t
     T0 = _t.time()
     phases = {}
@@ -466,6 +477,8 @@ def run(tier, seed, replay=None):
     R.check_proofs(PROOF_FILES, build_targets=["theories/Props/C17.vo", "theories/Model/TetMeshRun.vo",
                                                "theories/Checker/TetMesh.vo"])
     R.cov["tables_regenerated"] = tables_ok
+    if not tables_ok:
+        R.cov["discharged"] = 0
     lap("proofs")
 
     # 2. cases
@@ -627,7 +640,9 @@ def run(tier, seed, replay=None):
         R.corr_broken.append(f"certificate evaluation failed: {str(e)[:500]}")
     lap("coq_cert")
     R.cov["phase_wall_s"] = phases
-    R.cov["traces_validated_against_impl"] = validated
+    R.cov["traces_validated_against_impl"] = validated if tables_ok else 0
+    if not tables_ok:
+        R.cov["traces_agreeing_with_stale_model"] = validated
     R.cov["correspondence_disagreements"] = diffs
     R.cov["mesh_cert_evaluated"] = len(c_exprs)
     R.cov["mesh_cert_true"] = cert_true
